@@ -21,21 +21,28 @@ RULE = (
     "rendered by a real Environment(extra=True) with a DictLoader and by the Lean model; observation = output text or "
     "exception class. Non-trivial: the render goes through an extends tag and at least one block has two or more "
     "definitions on the chain, or the outcome is an inheritance/required-block error; for endblock: the sequence contains "
-    "a named endblock."
+    "a named endblock. Deepening round: stream syn — on well-formed chains (pool + random) the Lean syntactic flattening "
+    "`flattenSyn` rendered by the plain renderer vs the implementation, the Liquid source of the annotation-free flattened "
+    "template computed by Lean and independently in Python must be the same text, and when it is hygienic and raise-free "
+    "that source is rendered by a real Environment WITHOUT the extra tags and must equal the chain's output; stream async — "
+    "render_async of every pool chain and random chains; stream assign — every chain of length 1..3 (thorough 4) over 8 "
+    "bodies with assign/capture before/after block.super, in nested blocks and at top level, plus random chains, the root "
+    "ending in probes that show what reached the base template's scope (non-trivial: some block body assigns)."
 )
 TRUSTED_BASE = [
     "Lean 4.33 kernel; axioms subset of {propext, Classical.choice, Quot.sound}",
+    "hand-written models Model/InheritFlat.lean (syntactic flattening, plain renderer) and Model/InheritAssign.lean (locals of live contexts under assign/capture)",
     "hand-written models LiquidVerif/Model/Inherit.lean (extends_tag.py: _find_inheritance_nodes, _stack_blocks, _store_blocks, _build_block_stacks, BlockNode.render_to_output, BlockDrop super) and Model/InheritParse.lean (BlockTag.parse endblock-name check)",
     "correspondence harness harness/props/c18.py + Driver/C18.lean (differential: every case runs on the real Environment and on the model)",
     "the rest of the render pipeline (lexer, parser, output statements, for loops over ranges, RenderContext scope chain) is exercised, not modelled beyond text/variable/loop nodes",
 ]
 MANIFEST = {
     "technique": "Lean 4 proof (functional induction over the mutually recursive renderer; induction over the extends chain) + differential correspondence on generated and exhaustively enumerated inheritance chains",
-    "text": "Theorems inherit_eq_flatten (render of a leaf = declarative flatten of its chain, any length, any nesting), stacks_eq_defs, child_renders_only_blocks, required_raises, cycle_raises, dup_rejected_partial/_counterexample, endblock_mismatch_rejected, endblock_rejected_only_on_mismatch, flatten_unbounded_example about the model of extends_tag.py; the model is tied to the code by exhaustive small chains / extends graphs / endblock token sequences and random chains of length 1..4.",
-    "note": "Trusted: Lean kernel (axioms propext/Classical.choice/Quot.sound only), the hand model of extends_tag.py, the correspondence harness. Known findings: duplicate block names in a template rendered directly (no extends) are accepted; a chain with inverted nesting and block.super has no finite flattening and lets Python's RecursionError escape (theorem flatten_unbounded_example).",
+    "text": "Theorems inherit_eq_flatten (render of a leaf = declarative flatten of its chain, any length, any nesting), stacks_eq_defs, child_renders_only_blocks, required_raises, cycle_raises, dup_rejected_partial/_counterexample, endblock_mismatch_rejected, endblock_rejected_only_on_mismatch, flatten_unbounded_example, inherit_eq_flattenSyn (render = plain render of the syntactically flattened template), finite_no_depth_error, inherit_eq_plain_template/erase_scope_counterexample, super_rerendered_per_iteration, block_assign_scoped_partial/_counterexample about the model of extends_tag.py; the model is tied to the code by exhaustive small chains / extends graphs / endblock token sequences and random chains of length 1..4.",
+    "note": "Trusted: Lean kernel (axioms propext/Classical.choice/Quot.sound only), the hand model of extends_tag.py, the correspondence harness. Known findings: duplicate block names in a template rendered directly (no extends) are accepted; a chain with inverted nesting and block.super has no finite flattening and lets Python's RecursionError escape (theorem flatten_unbounded_example); assign/capture in a parent definition reached through block.super, or in a directly rendered block, leak into the enclosing scope.",
 }
 ASSUMPTIONS = [
-    "blocks contain text, output of global/loop variables, block.super, nested blocks and for-loops over literal ranges; assign/capture inside blocks are outside the model (a block body is its own local scope)",
+    "blocks contain text, output of global/loop variables, block.super, nested blocks and for-loops over literal ranges; assign/capture inside blocks are modelled separately (Model/InheritAssign.lean, without loops)",
     "extends tags are top-level nodes of a template (any position, any number)",
     "the scope.size() check of RenderContext.extend (direct/super path) is not modelled; generated nesting stays below it",
     "default Undefined (block.super without a parent renders as the empty string), autoescape off, Mode.STRICT",
@@ -546,6 +553,424 @@ class SpecStream(_InheritStream):
         return obs
 
 
+# ---------------------------------------------------------------------------------------------
+# syntactic flattening, written independently of the Lean `flattenSyn`
+class _TooBig(Exception):
+    pass
+
+
+def flatten_syn(chain, budget=4000):
+    """chain: templates (lists of tops) leaf first -> (plain tree, finite). Plain nodes:
+    ["t",s] ["v",x] ["l",v,n,body] ["scope",body] ["outer",body] ["raise",cls].
+    A chain without a finite flattening that refers to a block twice per level has a flattened template of size
+    2^limit; such cases are left out of the stream (budget on the number of nodes)."""
+    count = [0]
+    defs: dict = {}
+    for tops in chain:
+        for b in blocks_of([t for t in tops if t[0] != "x"]):
+            defs.setdefault(b[1], []).append(b)
+    finite = [True]
+
+    def go(items, supers, depth):
+        out = []
+        for it in items:
+            k = it[0]
+            count[0] += 1
+            if count[0] > budget:
+                raise _TooBig()
+            if k in ("t", "v"):
+                out.append(it)
+            elif k == "s":
+                out.append(["outer", go(supers[0][3], supers[1:], depth)] if supers else ["t", ""])
+            elif k == "l":
+                out.append(["l", it[1], it[2], go(it[3], supers, depth)])
+            elif k == "b":
+                ds = defs.get(it[1]) or []
+                if not ds:
+                    out.append(["raise", "RequiredBlockError"] if it[2] else ["scope", go(it[3], [], depth)])
+                elif ds[0][2]:
+                    out.append(["raise", "RequiredBlockError"])
+                elif depth > LIMIT:
+                    finite[0] = False
+                    out.append(["raise", "ContextDepthError"])
+                else:
+                    out.append(["scope", go(ds[0][3], ds[1:], depth + 1)])
+        return out
+
+    root = [t for t in chain[-1] if t[0] != "x"]
+    return go(root, [], 0), finite[0]
+
+
+def plain_hygienic(nodes, under_loop=False) -> bool:
+    """no first-level super body (outer) directly under a for of the definition that calls it"""
+    for n in nodes:
+        k = n[0]
+        if k == "l":
+            if not plain_hygienic(n[3], True):
+                return False
+        elif k == "scope":
+            if not plain_hygienic(n[1], False):
+                return False
+        elif k == "outer":
+            if under_loop or not plain_hygienic(n[1], False):
+                return False
+    return True
+
+
+def plain_has_raise(nodes) -> bool:
+    return any(n[0] == "raise" or (n[0] == "l" and plain_has_raise(n[3])) or (n[0] in ("scope", "outer") and plain_has_raise(n[1])) for n in nodes)
+
+
+def src_plain(nodes) -> str:
+    out = []
+    for n in nodes:
+        k = n[0]
+        if k == "t":
+            out.append(n[1])
+        elif k == "v":
+            out.append("{{ " + n[1] + " }}")
+        elif k == "l":
+            out.append("{% for " + n[1] + " in (1.." + str(n[2]) + ") %}" + src_plain(n[3]) + "{% endfor %}")
+        elif k in ("scope", "outer"):
+            out.append(src_plain(n[1]))
+        else:
+            out.append("<!" + n[1] + ">")
+    return "".join(out)
+
+
+class SynStream(_InheritStream):
+    """The syntactic flattening: (a) Lean `flattenSyn` rendered by the plain renderer against the implementation's
+    render of the chain; (b) the Liquid source of the annotation-free flattened template, computed independently in
+    Python and by Lean, must be the same text; (c) when the flattened template is hygienic and has no raise node,
+    that source is rendered by a real Environment *without* the extra tags and must give the chain's output."""
+
+    name = "syn"
+
+    @staticmethod
+    def usable(c) -> bool:
+        ch = chain_of(c)
+        if ch is None or ch[0]:
+            return False
+        try:
+            flatten_syn(ch[1])
+        except _TooBig:
+            return False
+        return True
+
+    def cases(self, ctx):
+        out = [c for c in PoolStream().cases(ctx) if self.usable(c)]
+        rng = ctx.rng_for("syn")
+        n = ctx.scale(500, 8000)
+        tries = 0
+        while n > 0 and tries < 200000:
+            tries += 1
+            c = gen_chain(rng)
+            if c["kind"] == "plain" and self.usable(c):
+                out.append(c)
+                n -= 1
+        return out
+
+    def impl(self, case):
+        obs = super().impl(case)
+        _, chain = chain_of(case)
+        plain, finite = flatten_syn(chain)
+        hyg = plain_hygienic(plain)
+        res = {"chain": obs, "finite": finite, "hygienic": hyg, "src": src_plain(plain), "flat": None}
+        if hyg and not plain_has_raise(plain):
+            from liquid import Environment
+
+            try:
+                res["flat"] = {"ok": Environment().from_string(res["src"]).render(**dict((k, v) for k, v in case["data"]))}
+            except Exception as e:
+                res["flat"] = {"err": type(e).__name__}
+        return res
+
+    def line(self, case):
+        _, chain = chain_of(case)
+        return ["flatsyn", LIMIT, chain, case["data"]]
+
+    def compare_view(self, case, obs):
+        return {"out": _InheritStream.compare_view(self, case, obs["chain"]), "finite": obs["finite"], "hygienic": obs["hygienic"], "src": obs["src"]}
+
+    def canon_model(self, case, mobs):
+        if isinstance(mobs, dict) and "out" in mobs:
+            return {"out": _InheritStream.canon_model(self, case, mobs["out"]), "finite": mobs["finite"], "hygienic": mobs["hygienic"], "src": mobs["src"]}
+        return mobs
+
+    def oracle(self, case, obs):
+        v = oracle_case(case, obs["chain"], self.name)
+        if v:
+            return v
+        if obs["flat"] is not None and obs["flat"] != obs["chain"]:
+            return ("syn|flattened-template-differs", f"chain renders {obs['chain']}, its flattened template {obs['src']!r} renders {obs['flat']}")
+        return None
+
+    def nontrivial(self, case, obs):
+        return super().nontrivial(case, obs["chain"])
+
+    def tags(self, case, obs):
+        t = super().tags(case, obs["chain"])
+        t.append("hygienic" if obs["hygienic"] else "needs-scope-annotation")
+        t.append("flat-rendered" if obs["flat"] is not None else "flat-not-rendered")
+        if not obs["finite"]:
+            t.append("not-finite")
+        return t
+
+
+class AsyncStream(_InheritStream):
+    """The asynchronous twin (`render_async`: `_build_block_stacks_async`, `render_to_output_async` of both nodes) on
+    the pool chains and random chains; same model, same oracle."""
+
+    name = "async"
+
+    def cases(self, ctx):
+        rng = ctx.rng_for("async")
+        pool = PoolStream().cases(ctx)
+        if ctx.tier != "thorough":
+            pool = pool[::3]
+        return pool + [gen_chain(rng) for _ in range(ctx.scale(700, 10000))]
+
+    def impl(self, case):
+        import asyncio
+
+        from liquid import Environment
+        from liquid.builtin import DictLoader
+
+        sources = {}
+        for name, tops in case["templates"]:
+            sources.setdefault(name, src_items(tops))
+        env = Environment(extra=True, loader=DictLoader(sources))
+
+        async def go():
+            t = await env.get_template_async(case["leaf"])
+            return await t.render_async(**dict((k, v) for k, v in case["data"]))
+
+        try:
+            return {"ok": asyncio.run(go())}
+        except Exception as e:
+            return {"err": type(e).__name__}
+
+
+# ---------------------------------------------------------------------------------------------
+# assign / capture inside blocks
+def src_aitems(items, capture) -> str:
+    out = []
+    for it in items:
+        k = it[0]
+        if k == "t":
+            out.append(it[1])
+        elif k == "v":
+            out.append("{{ " + it[1] + " }}")
+        elif k == "a":
+            if capture:
+                out.append("{% capture " + it[1] + " %}" + it[2] + "{% endcapture %}")
+            else:
+                out.append("{% assign " + it[1] + " = '" + it[2] + "' %}")
+        elif k == "s":
+            out.append("{{ block.super }}")
+        elif k == "b":
+            out.append("{% block " + it[1] + " %}" + src_aitems(it[2], capture) + "{% endblock %}")
+    return "".join(out)
+
+
+def ablocks(items):
+    out = []
+    for it in items:
+        if it[0] == "b":
+            out.append(it)
+            out += ablocks(it[2])
+    return out
+
+
+def assign_reference(chain, data, leaky: bool):
+    """Reference renders of an assign-chain. leaky=False: every block activation (most-derived definition, super
+    body, directly rendered block) has its own locals — "a block is its own scope". leaky=True: the implementation's
+    rule as read from the code — only the copied context of a most-derived definition is scoped; a super body and a
+    directly rendered block write the locals of the context of the block tag."""
+    direct = len(chain) <= 1
+    defs: dict = {}
+    if not direct:
+        for body in chain:
+            for b in ablocks(body):
+                defs.setdefault(b[1], []).append(b)
+
+    def lookup(frames, x):
+        for f in frames:
+            if x in f:
+                return f[x]
+        return data.get(x, "")
+
+    def go(items, frames, supers, in_copy, depth):
+        out = []
+        for it in items:
+            k = it[0]
+            if k == "t":
+                out.append(it[1])
+            elif k == "v":
+                out.append(lookup(frames, it[1]))
+            elif k == "a":
+                frames[0][it[1]] = it[2]
+            elif k == "s":
+                if supers:
+                    target = frames[1:] if in_copy else frames
+                    if leaky:
+                        out.append(go(supers[0][2], target, supers[1:], False, depth))
+                    else:
+                        out.append(go(supers[0][2], [{}] + target, supers[1:], False, depth))
+            elif k == "b":
+                ds = defs.get(it[1]) or []
+                if ds:
+                    if depth > LIMIT:
+                        raise _Raise("ContextDepthError")
+                    out.append(go(ds[0][2], [{}] + frames, ds[1:], True, depth + 1))
+                elif leaky:
+                    out.append(go(it[2], frames, [], False, depth))
+                else:
+                    out.append(go(it[2], [{}] + frames, [], False, depth))
+        return "".join(out)
+
+    try:
+        return {"ok": go(chain[-1], [{}], [], False, 0)}
+    except _Raise as r:
+        return {"err": r.cls}
+    except RecursionError:
+        return {"err": "<unbounded>"}
+
+
+class AssignStream(Stream):
+    """Which scope do assign/capture inside a block write: every chain of length 1..3 over a pool of bodies, plus
+    random chains; the root ends with probes `{{ x }}{{ y }}` that show what leaked into the base template's scope."""
+
+    name = "assign"
+    parallel = True
+
+    VARS = ["x", "y"]
+
+    def cases(self, ctx):
+        A = lambda x, s: ["a", x, s]
+        Bk = lambda n, body: ["b", n, body]
+        V = lambda x: ["v", x]
+        pool = [
+            [Bk("a", [A("x", "1"), V("x")])],
+            [Bk("a", [["s"], V("x")])],
+            [Bk("a", [A("x", "2"), ["s"], V("x")])],
+            [Bk("a", [["s"], A("x", "3"), V("x")])],
+            [A("x", "0"), Bk("a", [V("x"), A("x", "4"), V("x")])],
+            [Bk("a", [Bk("b", [A("y", "5"), ["s"]]), V("y")])],
+            [Bk("b", [A("y", "6"), V("y")])],
+            [],
+        ]
+        probes = [["t", "|"], V("x"), ["t", ","], V("y"), ["t", "|"]]
+        out = []
+        for n in range(1, ctx.scale(3, 4) + 1):
+            for combo in itertools.product(range(len(pool)), repeat=n):
+                chain = [list(pool[i]) for i in combo]
+                chain[-1] = chain[-1] + probes
+                for cap in (False, True):
+                    out.append({"chain": chain, "data": [["y", "gy"]], "capture": cap})
+        rng = ctx.rng_for("assign")
+        for _ in range(ctx.scale(300, 5000)):
+            out.append(gen_assign_chain(rng, probes))
+        return out
+
+    def impl(self, case):
+        chain = case["chain"]
+        sources = {}
+        for k, body in enumerate(chain):
+            head = "{% extends 't" + str(k + 1) + "' %}" if k < len(chain) - 1 else ""
+            sources[f"t{k}"] = head + src_aitems(body, case["capture"])
+        return render_real(sources, "t0", dict((k, v) for k, v in case["data"]))
+
+    def line(self, case):
+        return ["assign", LIMIT, case["chain"], case["data"]]
+
+    def compare_view(self, case, obs):
+        return {"err": "depth-guard"} if obs.get("err") in DEPTH_CLASSES else obs
+
+    def canon_model(self, case, mobs):
+        return {"err": "depth-guard"} if isinstance(mobs, dict) and mobs.get("err") in DEPTH_CLASSES else mobs
+
+    def oracle(self, case, obs):
+        data = dict((k, v) for k, v in case["data"])
+        ideal = assign_reference(case["chain"], data, leaky=False)
+        if obs == ideal or ideal.get("err") == "<unbounded>" or (obs.get("err") in DEPTH_CLASSES and ideal.get("err") in DEPTH_CLASSES):
+            return None
+        leaky = assign_reference(case["chain"], data, leaky=True)
+        if obs == leaky:
+            kind = "direct" if len(case["chain"]) <= 1 else "super"
+            return (f"assign-leak|{kind}", f"a block is not its own scope: expected {ideal}, got {obs}")
+        return ("assign|output", f"expected {ideal} (or, with the known leak, {leaky}), got {obs}")
+
+    def nontrivial(self, case, obs):
+        return any(it[0] == "a" for body in case["chain"] for b in ablocks(body) for it in b[2])
+
+    def tags(self, case, obs):
+        data = dict((k, v) for k, v in case["data"])
+        ideal = assign_reference(case["chain"], data, leaky=False)
+        return [f"chain{len(case['chain'])}", "capture" if case["capture"] else "assign", "scoped-ok" if obs == ideal else "differs-from-scoped"]
+
+    def shrink_candidates(self, case):
+        from ..core import generic_shrinks
+
+        for cand in generic_shrinks(case["chain"]):
+            if cand and all(_valid_aitems(b) for b in cand):
+                yield {"chain": cand, "data": case["data"], "capture": case["capture"]}
+
+
+def _valid_aitems(items) -> bool:
+    for it in items:
+        if not isinstance(it, list) or not it:
+            return False
+        k = it[0]
+        if k == "t":
+            ok = len(it) == 2 and isinstance(it[1], str) and "{" not in it[1]
+        elif k == "v":
+            ok = len(it) == 2 and bool(_IDENT.match(it[1]))
+        elif k == "a":
+            ok = len(it) == 3 and bool(_IDENT.match(it[1])) and isinstance(it[2], str) and it[2].isalnum()
+        elif k == "s":
+            ok = len(it) == 1
+        elif k == "b":
+            ok = len(it) == 3 and bool(_IDENT.match(it[1])) and isinstance(it[2], list) and _valid_aitems(it[2])
+        else:
+            ok = False
+        if not ok:
+            return False
+    return True
+
+
+def gen_assign_chain(rng, probes):
+    counter = [0]
+
+    def items(avail, depth, in_block):
+        out = []
+        for _ in range(rng.range(1, 4)):
+            r = rng.range(0, 99)
+            counter[0] += 1
+            if r < 20:
+                out.append(["t", f"w{counter[0]}"])
+            elif r < 40:
+                out.append(["v", rng.choice(["x", "y"])])
+            elif r < 62:
+                out.append(["a", rng.choice(["x", "y"]), str(counter[0])])
+            elif r < 80 and in_block:
+                out.append(["s"])
+            elif avail and depth < 3:
+                name = avail.pop(rng.below(len(avail)))
+                out.append(["b", name, items(avail, depth + 1, True)])
+            else:
+                out.append(["v", rng.choice(["x", "y"])])
+        return out
+
+    n = rng.choice([1, 2, 2, 3, 3, 4])
+    chain = []
+    for k in range(n):
+        avail = rng.shuffle(["a", "b", "c"])
+        chain.append(items(avail, 0, False))
+    chain[-1] = chain[-1] + probes
+    return {"chain": chain, "data": [["y", "gy"]] if rng.chance(50) else [], "capture": rng.chance(40)}
+
+
 def nest(names, inner, req=False):
     items = inner
     for n in reversed(names):
@@ -663,4 +1088,4 @@ class EndblockStream(Stream):
 
 
 def streams(ctx):
-    return [PoolStream(), GraphStream(), ChainStream(), SpecStream(), DeepStream(), EndblockStream()]
+    return [PoolStream(), GraphStream(), ChainStream(), SpecStream(), SynStream(), AsyncStream(), AssignStream(), DeepStream(), EndblockStream()]
